@@ -56,7 +56,7 @@ impl Ctx {
   pub fn new(prop: &str, tier: Tier, seed: u64) -> Self {
     let start = Instant::now();
     let budget = match tier {
-      Tier::Quick => Duration::from_secs(env_u64("VERIF_QUICK_BUDGET_S", 50)),
+      Tier::Quick => Duration::from_secs(env_u64("VERIF_QUICK_BUDGET_S", 120)),
       Tier::Thorough => Duration::from_secs(env_u64("VERIF_THOROUGH_BUDGET_S", 1500)),
     };
     Self {
